@@ -105,6 +105,7 @@ def Den (t : Ty) (v : Val) : Prop :=
   | .typ t' => ∃ u, v = .typ u ∧ asg cfg sfh t' u = true
   | .sensitive t' => ∃ x, v = .sensitive x ∧ Den t' x
   | .iterable _ => False
+  | .runtime _ _ _ => False       -- no value of the value language is a runtime value
   | .iterator _ => False          -- no value of the value language is an iterator
   | .object none => (∃ q, v = .obj q) ∨ (∃ u, v = .typ u)   -- pcore: every type is an instance of Object through its meta type
   | .object (some p) => ∃ q, v = .obj q ∧ isPrefix p q = true
